@@ -190,7 +190,7 @@ def odsMark : Ev → Bool
   | _ => false
 
 def Piece.wf : Piece → Bool
-  | .spaces n => n < 18446744073709551616
+  | .spaces n => n < 2147483648
   | .mark e => odsMark e
   | _ => true
 
